@@ -981,6 +981,12 @@ def run(ctx):
                 pass                                            # 0.5 of an even number of cells: a cell boundary = gap mid-point
             elif fpmode == 'rel':
                 kw['faultpos_rel'] = ((vac or 0.0) / 2 + jgap * D) / W
+                # the two faces of the slab are cell boundaries too (gap mid-points, or vacuum): a fault position of exactly
+                # 0 (every atom above) or 1 (none above), given as float or int
+                if (i // 8) % 3 == 1 and step == nsteps - 1:
+                    kw['faultpos_rel'] = [0.0, 0, 1.0, 1][(i // 24) % 4]
+                    rec.count('fault:faultpos-on-a-face')
+                    rec.count('fault:faultpos-on-a-face:%r' % (kw['faultpos_rel'],))
             else:
                 # Cartesian: slab origin along the cut is the rcell origin minus half the vacuum; cell boundaries are gap mid-points
                 kw['faultpos_cart'] = float(sf.rcell.box.origin[cut]) - (vac or 0.0) / 2 + jgap * D
@@ -1006,6 +1012,9 @@ def run(ctx):
                 calls.append(dict(a1=a1f, a2=a2f, minimum_r=float(rng.uniform(0.3, 1.2) * L)))
             if (i + step) % 4 == 2:
                 calls.append(dict())                            # no shift at all
+            if (i + step) % 5 == 3:
+                calls.append(dict(a1=a1f, a2=a2f, faultpos_rel=[0.0, 1.0, 0][(i // 5) % 3]))     # fault position moved to a face by fault() itself
+                rec.count('fault:fault()-faultpos-on-a-face')
             for c in calls:
                 with ctx.guard('fault() builds the faulted configuration', 'fault:exception'):
                     sf.fault(**c)
@@ -1067,6 +1076,8 @@ def run(ctx):
     rec.floor('fault:atoms-above', 1000)
     rec.floor('fault:atoms-below', 1000)
     rec.floor('fault:custom-vects', ctx.pick(20, 200))
+    rec.floor('fault:faultpos-on-a-face', ctx.pick(10, 100))
+    rec.floor('fault:fault()-faultpos-on-a-face', ctx.pick(20, 200))
     rec.floor('fault:iterfaultmap-runs', ctx.pick(25, 250))
     rec.floor('fault:minimum_r-pushed', 5)
     for name in ('hkl', 'hk0', 'h0l', 'h00', '0kl', '0k0', '00l'):
